@@ -350,7 +350,7 @@ class Extractor:
             k = lit_index(lit)
             rest = [x.strip() for x in split_top(am.group(2) or "")]
             # a value bound by an `Err(x)` pattern (an error object) has no numeric rendering: logged as opaque
-            errs = set(re.findall(r"Err\((\w+)\)\s*=>", body))
+            errs = set(re.findall(r"Err\((\w+)\)\s*=>", body)) | set(re.findall(r"\blet\s+Err\((\w+)\)\s*=", body))
             rest = ["verif_io::opaque_u64()" if a in errs else a for a in rest]
             for i, a in enumerate(rest):
                 if re.fullmatch(r"&\w+\[[^\]]*\.\.[^\]]*\]", a):
